@@ -466,6 +466,47 @@ def run_history(h: dict[str, Any]) -> dict[str, Any]:
     return out
 
 
+
+def mini_real(job: dict[str, Any]) -> dict[str, Any]:
+    """Real server/deps.py and server/astdiff.py on a mini-language program (two versions)."""
+    from mypy.dmypy_server import Server
+    from mypy.server.astdiff import snapshot_symbol_table, compare_symbol_table_snapshots
+    out: dict[str, Any] = {"id": job["id"]}
+    tmp = tempfile.mkdtemp(prefix="c03m-")
+    try:
+        os.chdir(tmp)
+        h = {"follow": "error", "lib": "fixture", "cmd": ["@all"], "flags": []}
+        apply_step({"write": {"builtins.pyi": BUILTINS_FIXTURE}}, 0)
+        snaps = []
+        for k, files in enumerate([job["files_a"], job["files_b"]]):
+            for f in list(os.listdir(".")):
+                if f.endswith(".py"):
+                    os.remove(f)
+            apply_step({"write": files}, k + 1)
+            opts = make_options(h, daemon=True)
+            server = Server(opts, os.path.join(tmp, f".dmypy{k}.json"))
+            resp = server.check(make_sources(h, server.options, server.fscache), False, False, 80)
+            fgm = server.fine_grained_manager
+            if fgm is None:
+                out["error"] = "no fine-grained manager: " + str(resp)[:300]
+                return out
+            mods = [m for m in fgm.manager.modules if m + ".py" in files]
+            snaps.append({m: snapshot_symbol_table(m, fgm.manager.modules[m].names) for m in mods})
+            if k == 0:
+                out["deps"] = {t: sorted(v) for t, v in fgm.deps.items()}
+                out["msgs_a"] = (resp.get("out", "") + resp.get("err", "")).splitlines()
+        diff = {}
+        for m in set(snaps[0]) | set(snaps[1]):
+            diff[m] = sorted(compare_symbol_table_snapshots(m, snaps[0].get(m, {}), snaps[1].get(m, {})))
+        out["diff"] = diff
+    except BaseException:
+        out["error"] = traceback.format_exc()[-2000:]
+    finally:
+        os.chdir("/")
+        shutil.rmtree(tmp, ignore_errors=True)
+    return out
+
+
 def worker_main() -> None:
     sys.path.insert(0, os.environ.get("VERIF_REPO", "/repo"))
     import mypy.build  # noqa: F401  (import once; every history runs in a fork of this clean process)
@@ -474,6 +515,29 @@ def worker_main() -> None:
     job = json.load(sys.stdin)
     results = []
     for h in job["histories"]:
+        if h.get("mini"):
+            # same isolation: one fork per program
+            r, w = os.pipe()
+            pid = os.fork()
+            if pid == 0:
+                os.close(r)
+                sys.stdout = io.StringIO()
+                sys.stderr = io.StringIO()
+                try:
+                    res = mini_real(h)
+                except BaseException:
+                    res = {"id": h.get("id"), "error": traceback.format_exc()[-2000:]}
+                _send(w, res)
+                os._exit(0)
+            os.close(w)
+            try:
+                res = _recv(r)
+            except EOFError:
+                res = {"id": h.get("id"), "error": "child died"}
+            os.close(r)
+            os.waitpid(pid, 0)
+            results.append(res)
+            continue
         r, w = os.pipe()
         pid = os.fork()
         if pid == 0:
@@ -987,7 +1051,7 @@ def run_jobs(hists: list[dict[str, Any]], nproc: int = 0, timeout: float = 3000)
         return []
     nproc = max(1, min(nproc or JOBS, JOBS, len(hists)))
     chunks: list[list[dict[str, Any]]] = [[] for _ in range(nproc)]
-    order = sorted(range(len(hists)), key=lambda i: -((1 + len(hists[i]["steps"])) * (40 if hists[i].get("lib") == "typeshed" else 1)))
+    order = sorted(range(len(hists)), key=lambda i: -((1 + len(hists[i].get("steps", []))) * (40 if hists[i].get("lib") == "typeshed" else 1)))
     for j, i in enumerate(order):
         chunks[j % nproc].append(hists[i])
     procs = []
@@ -1664,6 +1728,16 @@ DK2 = [
     ("tuple-param-type", {"p.py": "class A:\n    x: int = 0\n", "q.py": "from p import A\nclass B(A):\n    pass\n",
                           "c.py": "from typing import Tuple\nfrom q import B\ndef f(t: Tuple[B, int]) -> int:\n    return t[0].x\n"},
      {"p.py": "class A:\n    x: str = ''\n"}),
+    # predicted by the mini-language tie: a member absent on the whole base chain gets no <Base.member> edge
+    ("base-gains-attr", {"p.py": "class A:\n    pass\n", "q.py": "from p import A\nclass B(A):\n    pass\n",
+                         "c.py": "from q import B\ndef f(b: B) -> int:\n    return b.x\n"},
+     {"p.py": "class A:\n    x: int = 0\n"}),
+    ("base-gains-method", {"p.py": "class A:\n    pass\n", "q.py": "from p import A\nclass B(A):\n    pass\n",
+                           "c.py": "from q import B\ndef f(b: B) -> int:\n    return b.m()\n"},
+     {"p.py": "class A:\n    def m(self) -> int:\n        return 1\n"}),
+    ("middle-base-gains-attr", {"p.py": "class A:\n    x: int = 0\n", "q.py": "from p import A\nclass B(A):\n    pass\n", "r.py": "from q import B\nclass C(B):\n    pass\n",
+                                "c.py": "from r import C\ndef f(c: C) -> int:\n    return c.x\n"},
+     {"q.py": "from p import A\nclass B(A):\n    x: str = ''  # type: ignore[assignment]\n"}),
     ("nested-func-use", {"p.py": "def g() -> int:\n    return 1\n", "c.py": "import p\ndef f() -> None:\n    def inner() -> int:\n        return p.g()\n"},
      {"p.py": "def g() -> str:\n    return ''\n"}),
     ("lambda-use", {"p.py": "def g() -> int:\n    return 1\n", "c.py": TYP + "import p\ndef f() -> None:\n    h: Callable[[], int] = lambda: p.g()\n"},
@@ -2008,6 +2082,11 @@ def run(ctx: vlib.Ctx) -> None:
 
     # ---- C: traces against the Coq model
     trace_stage(ctx, results)
+    # ---- C: mini language (proved deps/diff) against the real deps.py / astdiff.py
+    try:
+        mini_stage(ctx)
+    except Exception:
+        ctx.broke("C", "mini tie", traceback.format_exc()[-1500:])
 
 
 def trace_stage(ctx: vlib.Ctx, results: list[dict[str, Any]]) -> None:
@@ -2085,3 +2164,453 @@ def export_findings() -> None:
 
 if __name__ == "__main__" and "--export-findings" in sys.argv:
     export_findings()
+
+
+# ---------------------------------------------------------------------- mini language: model deps / diff vs the real ones
+
+CLS, FUN, VAR = [2, 3, 4], [6, 7, 8], [10, 11]          # identifiers by kind (1 = __init__)
+ATT, MET = [2, 3], [5, 6]
+
+
+def mini_name(x: int, member: bool = False) -> str:
+    if member:
+        return "__init__" if x == 1 else (f"a{x}" if x in ATT else f"g{x}")
+    return f"C{x}" if x in CLS else f"f{x}" if x in FUN else f"v{x}"
+
+
+class MiniGen:
+    """Random well-scoped programs of the mini language (coq/C03/MiniLang.v): 3 modules, acyclic inheritance."""
+
+    def __init__(self, rng: vlib.Rng):
+        self.r = rng
+        self.mods: dict[int, dict[str, Any]] = {}
+        for m in (1, 2, 3):
+            self.mods[m] = self.gen_module(m)
+
+    def ty(self, m: int) -> Any:
+        r = self.r
+        classes = [(mm, c) for mm, d in self.mods.items() for c in d["classes"]]
+        if classes and r.random() < 0.45:
+            return ["inst"] + list(r.choice(classes))
+        return [r.choice(["int", "str"])]
+
+    def gen_module(self, m: int) -> dict[str, Any]:
+        r = self.r
+        d: dict[str, Any] = {"from": {}, "vars": {}, "funcs": {}, "classes": {}}
+        self.mods[m] = d
+        earlier = [(mm, c) for mm, dd in self.mods.items() if mm < m for c in dd["classes"]]
+        for c in r.sample(CLS, r.randint(1, 2)):
+            base = None
+            cands = earlier + [(m, c2) for c2 in d["classes"] if c2 < c]
+            if cands and r.random() < 0.7:
+                base = list(r.choice(cands))
+            attrs = {a: self.ty(m) for a in r.sample(ATT, r.randint(0, 2))}
+            d["classes"][c] = {"base": base, "attrs": attrs, "meths": {}}
+        for x in r.sample(VAR, r.randint(0, 2)):
+            d["vars"][x] = self.ty(m)
+        for mm in [k for k in self.mods if k < m]:
+            names = list(self.mods[mm]["funcs"]) + list(self.mods[mm]["classes"]) + list(self.mods[mm]["vars"])
+            for x in r.sample(names, min(len(names), r.randint(0, 2))):
+                if x not in d["classes"] and x not in d["vars"]:
+                    d["from"][x] = [mm, x]
+        return d
+
+    def add_bodies(self) -> None:
+        r = self.r
+        for m, d in self.mods.items():
+            for c, cd in d["classes"].items():
+                for a in r.sample([1] + MET, r.randint(0, 2)):
+                    ps = [self.ty(m) for _ in range(r.randint(0, 1))]
+                    cd["meths"][a] = {"params": ps, "ret": self.ty(m) if a != 1 else ["int"], "body": []}
+            for f in r.sample(FUN, r.randint(1, 2)):
+                if f in d["from"]:
+                    continue
+                d["funcs"][f] = {"params": [self.ty(m) for _ in range(r.randint(0, 1))], "ret": self.ty(m), "body": []}
+        for m, d in self.mods.items():
+            for f, fd in d["funcs"].items():
+                fd["body"] = self.no_early_return([self.stmt(m, fd["params"]) for _ in range(r.randint(1, 3))])
+            for c, cd in d["classes"].items():
+                for a, fd in cd["meths"].items():
+                    fd["body"] = self.no_early_return([self.stmt(m, [["inst", m, c]] + fd["params"]) for _ in range(r.randint(1, 2))])
+
+    @staticmethod
+    def no_early_return(body: list[Any]) -> list[Any]:
+        return [st if st[0] != "return" or i == len(body) - 1 else ["expr", st[1]] for i, st in enumerate(body)]
+
+    def members(self, m: int, c: int) -> dict[int, Any]:
+        out: dict[int, Any] = {}
+        seen = 0
+        cur: Any = (m, c)
+        while cur is not None and seen < 10:
+            cd = self.mods.get(cur[0], {"classes": {}})["classes"].get(cur[1])
+            if cd is None:
+                break
+            for a, t in cd["attrs"].items():
+                out.setdefault(a, ("attr", t))
+            for a, fd in cd["meths"].items():
+                out.setdefault(a, ("meth", fd))
+            cur = tuple(cd["base"]) if cd["base"] else None
+            seen += 1
+        return out
+
+    def arg_for(self, m: int, params: list[Any], t: Any, depth: int) -> Any:
+        r = self.r
+        if r.random() < 0.12:
+            return [r.choice(["int", "str"])]                  # sometimes ill-typed
+        if t[0] in ("int", "str"):
+            return [t[0]]
+        same = [i for i, pt in enumerate(params) if pt == t]
+        if same:
+            return ["param", r.choice(same)]
+        return self.construct(m, params, (t[1], t[2]), depth - 1)[0] if depth > 0 else ["int"]
+
+    def call_with(self, m: int, params: list[Any], f: Any, ps: list[Any], depth: int) -> Any:
+        if not ps:
+            return ["call0", f] if self.r.random() < 0.9 else ["call1", f, ["int"]]
+        return ["call1", f, self.arg_for(m, params, ps[0], depth)]
+
+    def construct(self, m: int, params: list[Any], cls: tuple[int, int], depth: int) -> tuple[Any, Any]:
+        init = self.members(*cls).get(1)
+        ps = init[1]["params"] if init and init[0] == "meth" else []
+        ref = ["from", cls[1]] if self.mods[m]["from"].get(cls[1]) == [cls[0], cls[1]] and self.r.random() < 0.5 else ["global", cls[0], cls[1]]
+        return self.call_with(m, params, ref, ps, depth), ["inst", cls[0], cls[1]]
+
+    def expr(self, m: int, params: list[Any], depth: int) -> tuple[Any, Any]:
+        """(expression, its static type or None) — mostly well typed"""
+        r = self.r
+        starts: list[tuple[Any, Any]] = [(["param", i], t) for i, t in enumerate(params)]
+        for mm, d in self.mods.items():
+            for x, t in d["vars"].items():
+                starts.append((["global", mm, x], t))
+            for f, fd in d["funcs"].items():
+                ref = ["from", f] if self.mods[m]["from"].get(f) == [mm, f] else ["global", mm, f]
+                starts.append((self.call_with(m, params, ref, fd["params"], depth), fd["ret"]))
+            for c in d["classes"]:
+                starts.append(self.construct(m, params, (mm, c), depth))
+        for x, (mm, x2) in self.mods[m]["from"].items():
+            if x2 in self.mods[mm]["vars"]:
+                starts.append((["from", x], self.mods[mm]["vars"][x2]))
+        inst = [sx for sx in starts if sx[1] and sx[1][0] == "inst"]
+        e, t = r.choice(inst if inst and r.random() < 0.8 else starts)
+        for _ in range(r.randint(0, 2)):
+            if not t or t[0] != "inst":
+                break
+            mem = self.members(t[1], t[2])
+            if not mem or r.random() < 0.08:
+                e, t = ["attr", e, r.choice(ATT + MET)], None           # sometimes a missing member
+                break
+            a = r.choice(sorted(mem))
+            if a == 1:
+                continue
+            kind, info = mem[a]
+            if kind == "attr":
+                e, t = ["attr", e, a], info
+            else:
+                e, t = self.call_with(m, params, ["attr", e, a], info["params"], depth), info["ret"]
+        return e, t
+
+    def stmt(self, m: int, params: list[Any]) -> Any:
+        r = self.r
+        k = r.choice(["check", "check", "return", "expr"])
+        e, t = self.expr(m, params, 2)
+        if k == "check":
+            return [k, t if t and r.random() < 0.8 else self.ty(m), e]
+        return [k, e]
+
+    def mutate(self) -> None:
+        """An edit of one declaration (what the snapshot diff must detect)."""
+        r = self.r
+        m = r.choice(list(self.mods))
+        d = self.mods[m]
+        what = r.choice(["attr", "meth", "func", "var", "base", "del", "from"])
+        if what == "attr" and d["classes"]:
+            cd = d["classes"][r.choice(list(d["classes"]))]
+            cd["attrs"][r.choice(ATT)] = self.ty(m)
+        elif what == "meth" and d["classes"]:
+            cd = d["classes"][r.choice(list(d["classes"]))]
+            a = r.choice(MET)
+            cd["meths"][a] = {"params": [self.ty(m) for _ in range(r.randint(0, 1))], "ret": self.ty(m),
+                              "body": cd["meths"].get(a, {}).get("body", [["expr", ["int"]]])}
+        elif what == "func" and d["funcs"]:
+            f = r.choice(list(d["funcs"]))
+            d["funcs"][f]["ret"] = self.ty(m)
+            d["funcs"][f]["params"] = [self.ty(m) for _ in range(r.randint(0, 1))]
+        elif what == "var":
+            x = r.choice(VAR)
+            if x not in d["from"]:
+                d["vars"][x] = self.ty(m)
+        elif what == "base" and d["classes"]:
+            c = r.choice(list(d["classes"]))
+            cands = [(mm, c2) for mm, dd in self.mods.items() if mm < m for c2 in dd["classes"]]
+            d["classes"][c]["base"] = list(r.choice(cands)) if cands and d["classes"][c]["base"] is None else None
+        elif what == "del":
+            pool = [("funcs", x) for x in d["funcs"]] + [("vars", x) for x in d["vars"]]
+            if pool:
+                k, x = r.choice(pool)
+                del d[k][x]
+        elif what == "from" and d["from"]:
+            del d["from"][r.choice(list(d["from"]))]
+
+    # ---- printers
+    def py_ty(self, t: Any, m: int) -> str:
+        if t[0] in ("int", "str"):
+            return t[0]
+        return f"'{mini_name(t[2])}'" if t[1] == m else f"'m{t[1]}.{mini_name(t[2])}'"
+
+    def py_expr(self, e: Any, m: int, meth: bool) -> str:
+        k = e[0]
+        if k == "param":
+            return "self" if meth and e[1] == 0 else f"p{e[1]}"
+        if k == "int":
+            return "(1)"
+        if k == "str":
+            return "('')"
+        if k == "global":
+            return mini_name(e[2]) if e[1] == m else f"m{e[1]}.{mini_name(e[2])}"
+        if k == "from":
+            return mini_name(e[1])
+        if k == "attr":
+            return f"{self.py_expr(e[1], m, meth)}.{mini_name(e[2], True)}"
+        if k == "call0":
+            return f"{self.py_expr(e[1], m, meth)}()"
+        return f"{self.py_expr(e[1], m, meth)}({self.py_expr(e[2], m, meth)})"
+
+    def py_body(self, fd: dict[str, Any], m: int, meth: bool, ind: str) -> str:
+        out = []
+        for i, st in enumerate(fd["body"]):
+            if st[0] == "check":
+                out.append(f"{ind}y{i}: {self.py_ty(st[1], m)} = {self.py_expr(st[2], m, meth)}\n")
+            elif st[0] == "return":
+                out.append(f"{ind}return {self.py_expr(st[1], m, meth)}\n")
+            else:
+                out.append(f"{ind}{self.py_expr(st[1], m, meth)}\n")
+        return "".join(out) or f"{ind}pass\n"
+
+    def python(self) -> dict[str, str]:
+        files = {}
+        for m, d in self.mods.items():
+            o = ["".join(f"import m{mm}\n" for mm in self.mods if mm != m)]
+            for x, (mm, x2) in sorted(d["from"].items()):
+                o.append(f"from m{mm} import {mini_name(x2)}\n")
+            for x, t in sorted(d["vars"].items()):
+                o.append(f"{mini_name(x)}: {self.py_ty(t, m)}\n")
+            for c, cd in sorted(d["classes"].items()):
+                b = cd["base"]
+                o.append(f"class {mini_name(c)}" + (f"({mini_name(b[1]) if b[0] == m else 'm%d.%s' % (b[0], mini_name(b[1]))})" if b else "") + ":\n")
+                for a, t in sorted(cd["attrs"].items()):
+                    o.append(f"    {mini_name(a, True)}: {self.py_ty(t, m)}\n")
+                for a, fd in sorted(cd["meths"].items()):
+                    ps = "".join(f", p{i + 1}: {self.py_ty(t, m)}" for i, t in enumerate(fd["params"]))
+                    rt = "None" if a == 1 else self.py_ty(fd["ret"], m)
+                    o.append(f"    def {mini_name(a, True)}(self{ps}) -> {rt}:\n" + self.py_body(fd, m, True, "        "))
+                if not cd["attrs"] and not cd["meths"]:
+                    o.append("    pass\n")
+            for f, fd in sorted(d["funcs"].items()):
+                ps = ", ".join(f"p{i}: {self.py_ty(t, m)}" for i, t in enumerate(fd["params"]))
+                o.append(f"def {mini_name(f)}({ps}) -> {self.py_ty(fd['ret'], m)}:\n" + self.py_body(fd, m, False, "    "))
+            files[f"m{m}.py"] = "".join(o)
+        return files
+
+    def coq_ty(self, t: Any) -> str:
+        return "TInt" if t[0] == "int" else "TStr" if t[0] == "str" else f"(TInst {t[1]} {t[2]})"
+
+    def coq_expr(self, e: Any, m: int) -> str:
+        k = e[0]
+        if k == "param":
+            return f"(EParam {e[1]}%nat)"
+        if k in ("int", "str"):
+            return "EInt" if k == "int" else "EStr"
+        if k == "global":
+            return f"(EGlobal {e[1]} {e[2]})"
+        if k == "from":
+            return f"(EFrom {e[1]})"
+        if k == "attr":
+            return f"(EAttr {self.coq_expr(e[1], m)} {e[2]})"
+        if k == "call0":
+            return f"(ECall0 {self.coq_expr(e[1], m)})"
+        return f"(ECall1 {self.coq_expr(e[1], m)} {self.coq_expr(e[2], m)})"
+
+    def coq_fdef(self, fd: dict[str, Any], m: int) -> str:
+        body = []
+        for st in fd["body"]:
+            if st[0] == "check":
+                body.append(f"SCheck {self.coq_ty(st[1])} {self.coq_expr(st[2], m)}")
+            elif st[0] == "return":
+                body.append(f"SReturn {self.coq_expr(st[1], m)}")
+            else:
+                body.append(f"SExpr {self.coq_expr(st[1], m)}")
+        return f"(mkF {coq_list([self.coq_ty(t) for t in fd['params']])} {self.coq_ty(fd['ret'])} {coq_list(body)})"
+
+    def coq_module(self, m: int) -> str:
+        d = self.mods[m]
+        fr = coq_list([f"({x}, ({mm}, {x2}))" for x, (mm, x2) in sorted(d["from"].items())])
+        vs = coq_list([f"({x}, {self.coq_ty(t)})" for x, t in sorted(d["vars"].items())])
+        fs = coq_list([f"({f}, {self.coq_fdef(fd, m)})" for f, fd in sorted(d["funcs"].items())])
+        cs = []
+        for c, cd in sorted(d["classes"].items()):
+            b = f"(Some ({cd['base'][0]}, {cd['base'][1]}))" if cd["base"] else "None"
+            at = coq_list([f"({a}, {self.coq_ty(t)})" for a, t in sorted(cd["attrs"].items())])
+            ms = coq_list([f"({a}, {self.coq_fdef(fd, m)})" for a, fd in sorted(cd["meths"].items())])
+            cs.append(f"({c}, mkC {b} {at} {ms})")
+        return f"(mkM {fr} {vs} {fs} {coq_list(cs)})"
+
+    def coq_prog(self) -> str:
+        return coq_list([f"({m}, {self.coq_module(m)})" for m in sorted(self.mods)])
+
+    def targets(self) -> list[tuple[int, str, str]]:
+        """(module, coq tkey, python target name)"""
+        out = []
+        for m, d in self.mods.items():
+            out.append((m, f"({m}, None)", f"m{m}"))
+            for f in d["funcs"]:
+                out.append((m, f"({m}, Some ({f}, None))", f"m{m}.{mini_name(f)}"))
+            for c, cd in d["classes"].items():
+                for a in cd["meths"]:
+                    out.append((m, f"({m}, Some ({c}, Some {a}))", f"m{m}.{mini_name(c)}.{mini_name(a, True)}"))
+        return out
+
+
+MINI_W = 16 * 17
+
+
+def mini_sym_name(x: int) -> str:
+    """decode a symbol number of coq/C03/MiniEval.v into the trigger name of the real implementation"""
+    n = x - 1
+    m, slot = n // MINI_W + 1, n % MINI_W
+    top, mem = slot // 17 + 1, slot % 17
+    return f"<m{m}.{mini_name(top)}>" if mem == 0 else f"<m{m}.{mini_name(top)}.{mini_name(mem, True)}>"
+
+
+MINI_HEADER = """From Coq Require Import PArith NArith List Bool.
+From C03 Require Import Model MiniLang MiniEval.
+Import ListNotations.
+Open Scope positive_scope.
+"""
+
+
+def parse_pos_list(sx: str) -> list[int]:
+    return [int(v) for v in re.findall(r"\d+", sx.replace("%positive", ""))]
+
+
+def mini_stage(ctx: vlib.Ctx) -> None:
+    """C: model deps_of_target / diff vs real get_dependencies / compare_symbol_table_snapshots."""
+    ok, out = vlib.coq_make(["C03/MiniEval.vo"])
+    if not ok:
+        ctx.broke("C", "C03/MiniEval.v", out[-1500:])
+        return
+    rng = vlib.Rng(ctx.seed, "mini")
+    n = ctx.n(24, 150)
+    jobs, gens = [], []
+    exprs: list[str] = []
+    index: list[tuple[int, str, Any]] = []
+    for i in range(n):
+        g = MiniGen(vlib.Rng(ctx.seed, f"mini/{i}"))
+        g.add_bodies()
+        files_a, prog_a, tg = g.python(), g.coq_prog(), g.targets()
+        mods_a = {m: g.coq_module(m) for m in g.mods}
+        for _ in range(rng.randint(1, 2)):
+            g.mutate()
+        files_b, prog_b = g.python(), g.coq_prog()
+        jobs.append({"id": f"mini{i}", "mini": True, "files_a": files_a, "files_b": files_b, "steps": []})
+        gens.append((files_a, files_b))
+        for m, tk, name in tg:
+            exprs.append(f"e_reads {prog_a} {mods_a[m]} {tk}")
+            index.append((i, "reads", name))
+        for m in (1, 2, 3):
+            exprs.append(f"e_diff {prog_a} {prog_b} {m}")
+            index.append((i, "diff", m))
+    real = run_jobs(jobs)
+    outs = ctx.eval_cases("mini", MINI_HEADER, exprs, per_file=60)
+    if outs is None:
+        return
+    model: dict[int, dict[str, Any]] = {}
+    for (i, kind, key), o in zip(index, outs):
+        model.setdefault(i, {"reads": {}, "diff": {}})[kind][key] = sorted({mini_sym_name(x) for x in parse_pos_list(o)})
+    n_targets = n_edges = n_diff = n_same = 0
+    missing: dict[str, int] = {}
+    missing_ex: dict[str, Any] = {}
+    extra_kinds: dict[str, int] = {}
+    unmodelled: dict[str, int] = {}
+    diff_bad = []
+    for i, rr in enumerate(real):
+        if "error" in rr or "deps" not in rr:
+            ctx.broke("C", "mini tie", f"program {i}: {rr.get('error', rr)!s}"[:600])
+            continue
+        deps = {t: set(v) for t, v in rr["deps"].items()}
+        alltargets = set(model[i]["reads"])
+
+        def cover(loc: str) -> set[str]:
+            # a class location stands for the module top level and every method of the class
+            if loc in alltargets:
+                return {loc}
+            return {t for t in alltargets if t.startswith(loc + ".")} | ({loc.rsplit(".", 1)[0]} if loc.rsplit(".", 1)[0] in alltargets else set())
+        reach: dict[str, set[str]] = {}
+
+        def reach_of(t: str, seen: frozenset = frozenset()) -> set[str]:
+            if t in reach:
+                return reach[t]
+            res: set[str] = set()
+            for loc in deps.get(t, ()):
+                if loc.startswith("<"):
+                    if loc not in seen:
+                        res |= reach_of(loc, seen | {t})
+                else:
+                    res |= cover(loc)
+                    # a class location is reprocessed as a whole; if its MRO / bases changed its own class
+                    # trigger fires in the next propagation round
+                    if loc not in alltargets and "<" + loc + ">" not in seen and "<" + loc + ">" != t:
+                        res |= reach_of("<" + loc + ">", seen | {t})
+            if not seen:
+                reach[t] = res
+            return res
+        for u, reads in model[i]["reads"].items():
+            n_targets += 1
+            direct = {t for t, locs in deps.items() if any(u in cover(l) for l in locs if not l.startswith("<"))}
+            for t in reads:
+                n_edges += 1
+                if t.startswith("<" + u.split(".")[0] + "."):
+                    n_same += 1
+                    continue
+                got_r = reach_of(t)
+                if u in got_r or ("." not in u and any(x.startswith(u + ".") for x in got_r)):
+                    # (the model attributes override checks to the module top level, mypy to the overriding method)
+                    continue
+                if True:
+                    # classify: which kind of symbol does the real map not connect to the target?
+                    parts = t.strip("<>").split(".")
+                    kind = ("member " if len(parts) == 3 else "name ") + ("(same module)" if t.startswith("<" + u.split(".")[0] + ".") else "(other module)")
+                    declared = any(t == tt for tt in deps)
+                    kind += "" if declared else " never a trigger in the real map"
+                    missing[kind] = missing.get(kind, 0) + 1
+                    missing_ex.setdefault(kind, {"program": i, "target": u, "trigger": t, "files": gens[i][0]})
+            for t in direct:
+                if re.fullmatch(r"<m[123]\.[A-Za-z_0-9]+(\.[A-Za-z_0-9]+)?>", t):
+                    if t not in reads:
+                        k2 = "member" if t.count(".") == 2 else "name"
+                        extra_kinds[k2] = extra_kinds.get(k2, 0) + 1
+                else:
+                    k3 = re.sub(r"[A-Za-z_0-9]+", "N", t) if not t.startswith("<builtins") else "<builtins…>"
+                    unmodelled[k3] = unmodelled.get(k3, 0) + 1
+        for m in (1, 2, 3):
+            n_diff += 1
+            want = {f"<{x}>" for x in rr["diff"].get(f"m{m}", [])}
+            want = {t for t in want if re.fullmatch(r"<m[123]\.[A-Za-z_0-9]+(\.[A-Za-z_0-9]+)?>", t) and "__" not in t.replace("__init__", "")}
+            got = set(model[i]["diff"][m])
+            if got != want:
+                diff_bad.append({"program": i, "module": m, "model_only": sorted(got - want), "real_only": sorted(want - got)})
+    ctx.add("evaluations", len(exprs))
+    ctx.cov["mini_programs"] = n
+    ctx.cov["mini_targets"] = n_targets
+    ctx.cov["mini_model_edges"] = n_edges
+    ctx.cov["mini_model_edges_same_module"] = n_same
+    ctx.cov["mini_model_edges_without_real_path"] = missing
+    ctx.cov["mini_real_direct_triggers_not_read_by_model"] = extra_kinds
+    ctx.cov["mini_real_trigger_kinds_not_modelled"] = unmodelled
+    ctx.cov["mini_diff_compared"] = n_diff
+    ctx.cov["mini_diff_mismatches"] = len(diff_bad)
+    ctx.cov["mini_examples_missing"] = {k: {kk: vv for kk, vv in v.items() if kk != "files"} for k, v in missing_ex.items()}
+    ctx.log(f"mini tie: {n} programs, {n_targets} targets, {n_edges} model edges; without real path: {missing}; diff mismatches {len(diff_bad)}/{n_diff}")
+    for b in diff_bad[:3]:
+        ctx.log("mini diff mismatch:", b)
+    ctx.mini_missing_examples = missing_ex          # type: ignore[attr-defined]
+    ctx.mini_diff_bad = diff_bad                    # type: ignore[attr-defined]
